@@ -306,11 +306,14 @@ def weightFrozen (o n : Meta) : Bool := o.weightQ == n.weightQ || (o.weightQ == 
 def skipsSame (o n : Meta) : Bool :=
   o.skipMaxHost == n.skipMaxHost && o.skipMinHost == n.skipMinHost && o.skipSumSquare == n.skipSumSquare
 
+def noneRaw : List Bool → Bool
+  | [] => true
+  | a :: as => !a && noneRaw as
+
 /-- the loop over `max(len(old.Tags), len(new.Tags))`: a missing tag counts as not raw -/
 def rawSame : List Bool → List Bool → Bool
-  | [], [] => true
-  | a :: as, [] => !a && rawSame as []
-  | [], b :: bs => !b && rawSame [] bs
+  | [], bs => noneRaw bs
+  | a :: as, [] => !a && noneRaw as
   | a :: as, b :: bs => a == b && rawSame as bs
 
 inductive EditRes where
